@@ -1,4 +1,5 @@
 import CgtModel.Fx
+import CgtModel.Props.Formulas
 /-! # C08 — foreign amounts convert at the HMRC rate of their own month, or the run fails
 
 Proved for the model:
